@@ -634,6 +634,24 @@ def oracle(case, io):
 # the check
 # ---------------------------------------------------------------------------------------------
 
+def corpus_cases():
+    """minimised failing inputs kept from earlier runs (corpus/C06/*.json); always run"""
+    out = []
+    d = os.path.join(vlib.VERIF, "corpus", "C06")
+    if not os.path.isdir(d):
+        return out
+    for fn in sorted(os.listdir(d)):
+        if not fn.endswith(".json"):
+            continue
+        import json
+        j = json.load(open(os.path.join(d, fn)))
+        out.append({"name": j["name"], "kind": j.get("kind", "corpus"), "sort_original": bool(j["sort_original"]),
+                    "files": [{"name": f["name"], "columns": f["columns"], "lines": [bytes.fromhex(x) for x in f["lines_hex"]],
+                               "imports": f["imports"]} for f in j["files"]],
+                    "rows": [(bytes.fromhex(t), [bytes.fromhex(x) for x in c], bytes.fromhex(w)) for (t, c, w) in j["rows"]]})
+    return out
+
+
 def plan_cases(g, rng, tier):
     """the generic stream: (case, tag) list"""
     cases = []
@@ -649,25 +667,25 @@ def plan_cases(g, rng, tier):
     add("empty", [[]], so=True)
     for n in (1, 2, 3, 5):
         add("tiny", [g.rows_mixed(n, g.syllables(rng.randint(2, 6)))])
-    reps = 24 if not big else 80
+    reps = 60 if not big else 200
     for _ in range(reps):
         s = g.syllables(rng.choice([2, 3, 5, 8, 13, 21, 34, 60]))
-        n = rng.choice([8, 20, 50, 120, 300, 700] + ([1500, 3000] if big else []))
+        n = rng.choice([8, 20, 50, 120, 300, 700, 1200] + ([2000, 3000] if big else []))
         add("mixed", [g.rows_mixed(n, s)])
-    for _ in range(5 if not big else 14):
+    for _ in range(8 if not big else 24):
         s = g.syllables(rng.choice([2, 4, 9, 30]))
         add("dense-tail", [g.rows_dense_tail(rng.choice([10, 60, 250] + ([1500] if big else [])), s)])
-    for _ in range(5 if not big else 12):
+    for _ in range(8 if not big else 24):
         s = g.syllables(rng.choice([2, 5, 12, 40]))
         add("words", [g.rows_words(rng.choice([5, 40, 200] + ([1500] if big else [])), s)])
-    for _ in range(5 if not big else 12):
+    for _ in range(8 if not big else 24):
         s = g.syllables(rng.choice([3, 8, 25]))
         k = rng.choice([2, 3])
         add("imports", [g.rows_mixed(rng.choice([5, 30, 120]), s) for _ in range(k)])
-    for _ in range(4 if not big else 10):
+    for _ in range(8 if not big else 24):
         s = g.syllables(rng.choice([6, 20, 60]))
         add("long-codes", [g.rows_mixed(rng.choice([30, 150]), s, lens=(4, 8), p_rep_code=0.2)])
-    for _ in range(4 if not big else 10):
+    for _ in range(8 if not big else 24):
         s = g.syllables(rng.choice([4, 10]))
         add("long-texts", [g.rows_mixed(rng.choice([10, 40]), s, long_text=0.7, p_rep_text=0.1)])
     for _ in range(2 if not big else 4):
@@ -680,7 +698,9 @@ def plan_cases(g, rng, tier):
     if big:
         s = g.syllables(60)
         add("large", [g.rows_mixed(5000, s, p_rep_text=0.5)])
+        add("large", [g.rows_mixed(5000, g.syllables(25), p_rep_text=0.2, p_rep_code=0.7)], so=True)
         add("large-words", [g.rows_words(4000, s)])
+        add("large-sparse", [g.rows_sparse(3600, s, 7)])
     return cases
 
 
@@ -810,7 +830,7 @@ def run(ctx):
     timing["boundary_search_s"] = round(time.time() - t1, 1)
     t1 = time.time()
 
-    cases = [finish_case(c) for c in plan_cases(g, rng, ctx.tier)] + boundary_cases
+    cases = [finish_case(c) for c in corpus_cases()] + [finish_case(c) for c in plan_cases(g, rng, ctx.tier)] + boundary_cases
     for i, c in enumerate(cases):
         c["name_dir"] = os.path.join(work, "case%d" % i)
         write_case(c, c["name_dir"])
@@ -951,6 +971,24 @@ def run(ctx):
     })
     timing["compare_s"] = round(time.time() - t1, 1)
     ctx.coverage["timing"] = timing
+
+    # ---- thorough: the kernel-only checker over the property file's whole dependency cone
+    chk_bad = None
+    if ctx.tier == "thorough" and proof_ok:
+        t1 = time.time()
+        cone = ["Base/Bytes.vo", "Dict/Vocab.vo", "Dict/TableIx.vo", "Dict/MFile.vo", "Dict/TableProofs.vo", "Dict/MFileProofs.vo",
+                "Gen/Layout.vo", "Properties_C06.vo"]
+        cdir = os.path.join(work, "coqchk")
+        with vlib.Lock(os.path.join(vlib.COQ, ".make.lock")):
+            for rel in cone:
+                os.makedirs(os.path.dirname(os.path.join(cdir, rel)), exist_ok=True)
+                vlib.shutil.copy(os.path.join(vlib.COQ, rel), os.path.join(cdir, rel))
+        rcc, outc = vlib.sh("timeout 1200 coqchk -silent -o -Q . RimeV RimeV.Properties_C06", cwd=cdir, timeout=1300)
+        ctx.coverage["coqchk"] = {"rc": rcc, "summary": outc[-700:], "seconds": round(time.time() - t1, 1)}
+        if rcc != 0 or "Axioms: <none>" not in outc.replace("\n", " ").replace("  ", " "):
+            chk_bad = outc[-2000:]
+    if chk_bad is not None:
+        ctx.violation("proof:coqchk", "coqchk does not accept Properties_C06 (or reports axioms)", {"output": chk_bad}, found_input=False)
 
     # ---- verdicts
     seen = set()
